@@ -214,12 +214,14 @@ def classify_atoms(sx: SymX, f: Formula, path: Term | None, name_atoms: frozense
                 role = "PY" if t[3][0] == ("const", PY) else "SUFFIX"
         elif t[0] == "unk" and t[1].startswith("bool(<"):
             role = "WORK"  # truthiness of a mutable container (work list not empty)
+        elif t[0] == "cmp" and t[1] == "is" and any(o[0] == "lib" or is_none(o) for o in (t[2], t[3])):
+            role = "MARK"  # identity test against None / a sentinel (end-of-iteration marker): not a property of a path
         roles[key] = role
 
     # tests about the path that this rule cannot interpret (fnmatch, suffix sets, is_file, ...)
     for key, r in list(roles.items()):
         t = sx.atoms.get(key)
-        if r in ("SUFFIX", "other-path"):
+        if r in ("SUFFIX", "other-path", "MARK"):
             continue  # understood: a file-type test that is not `suffix == '.py'`
         if r == "other" and key in name_atoms:
             roles[key] = "NAME"  # a case distinction of the name computation itself (e.g. 'the path is the root')
